@@ -5,6 +5,7 @@ package vm
 import (
 	"fmt"
 	"sort"
+	"strings"
 )
 
 type vchan struct {
@@ -78,7 +79,8 @@ type sched struct {
 	nextMu  int
 	nextCh  int
 	actor   int // logical actor for sequential harnesses
-	preempt bool
+	preempt int
+	budget  int // remaining preemptions (switches away from a runnable thread)
 	killed  bool
 	abortV  any
 }
@@ -226,9 +228,15 @@ func (m *machine) yield() {
 	if len(m.liveThreads()) <= 1 {
 		return
 	}
+	if m.sc.budget <= 0 {
+		return // preemption budget exhausted: keep running
+	}
 	t := m.pickNext(true)
 	if t == nil {
 		return
+	}
+	if t != m.sc.cur {
+		m.sc.budget--
 	}
 	m.transfer(t)
 }
@@ -248,7 +256,7 @@ func (m *machine) block(what string, cond func() bool) {
 	sc := m.sc
 	self := sc.cur
 	for !cond() {
-		if len(self.held) > 0 {
+		if len(self.held) > 0 && !strings.HasPrefix(what, "Lock ") {
 			m.mon.blockedHolding = append(m.mon.blockedHolding, fmt.Sprintf("%s while holding %s", what, self.held[0].name))
 		}
 		self.blocked = cond
@@ -380,7 +388,7 @@ func (m *machine) curActor() int {
 func (m *machine) lock(addr *value) {
 	mu := m.mutexAt(addr)
 	self := m.sc.cur
-	if m.sc.preempt {
+	if m.sc.preempt >= 1 {
 		m.yield()
 	}
 	if mu.locked && mu.owner == self && mu.ownerA == m.curActor() {
@@ -437,7 +445,7 @@ func (m *machine) unlock(addr *value) {
 		}
 	}
 	mu.owner = nil
-	if m.sc.preempt {
+	if m.sc.preempt >= 2 {
 		m.yield()
 	}
 }
@@ -506,7 +514,7 @@ func (m *machine) chanSend(c *vchan, v value) {
 	if c == nil {
 		m.block("send on nil channel", func() bool { return false })
 	}
-	if m.sc.preempt {
+	if m.sc.preempt >= 2 {
 		m.yield()
 	}
 	if c.closed {
@@ -555,7 +563,7 @@ func (m *machine) chanRecv(c *vchan) (value, bool) {
 	if c == nil {
 		m.block("receive from nil channel", func() bool { return false })
 	}
-	if m.sc.preempt {
+	if m.sc.preempt >= 2 {
 		m.yield()
 	}
 	if !m.chanRecvReady(c) {
@@ -584,7 +592,7 @@ type selCase struct {
 
 // selectOp returns the chosen case index (-1 = default) and received value.
 func (m *machine) selectOp(cases []selCase, blocking bool) (int, value, bool) {
-	if m.sc.preempt {
+	if m.sc.preempt >= 2 {
 		m.yield()
 	}
 	ready := func() []int {
